@@ -17,7 +17,7 @@ def goodFacts : Facts02 :=
     guardPathLocal := true, fileFormValidated := true,
     mpBytesTable := SpyneModel.Generated.facts02.mpBytesTable, mpBoolPassThrough := [], tableUtf8Fault := true,
     bytesJoinBeforeEncode := true, retagSubclassChecked := true,
-    notWrappedStrKeys := true, notWrappedBytesKeys := true, nonNumberForNumber := [], noFreqKeepsValidation := true, valuesNullTestIsNone := true }
+    notWrappedStrKeys := true, notWrappedBytesKeys := true, nonNumberForNumber := [], noFreqKeepsValidation := true, valuesNullTestIsNone := true, attrCachesPerInstance := true }
 
 def jText (j : Json) : Text :=
   match j with
